@@ -109,6 +109,25 @@ where T: Ring + Bridge, for<'x> &'x T: RingOps<T> {
     if let Some((k, c)) = m.iter().max_by(|a, b| own_grlex(a.0, b.0)) {
         let (lx, lc) = p.lead_term();
         if &lx.exps() != k || &lc.to_o() != c { return Some(format!("lead_term has exponents {:?}, graded-lex maximum is {:?}", lx.exps(), k)) }
+        if &p.lead_coeff().to_o() != c { return Some(format!("lead_coeff differs from the coefficient of the graded-lex maximal term {:?}", k)) }
+        if &X::from(p.lead_deg()).exps() != k { return Some(format!("lead_deg differs from the degree of the graded-lex maximal term {:?}", k)) }
+    }
+    // accessors: coefficient lookup (present and absent monomials), constant term, is_const, is_mono / as_mono
+    let zero_exps = vec![0i64; X::NV];
+    for (k, c) in m.iter().take(4) {
+        if &p.coeff(&X::from_exps(k)).to_o() != c { return Some(format!("coeff({:?}) differs from the stored term", k)) }
+    }
+    let absent: Vec<i64> = (0..X::NV).map(|i| 7 + i as i64).collect();
+    if !m.contains_key(&absent) && !p.coeff(&X::from_exps(&absent)).is_zero() { return Some(format!("coeff of the absent monomial {:?} is not zero", absent)) }
+    let c0 = m.get(&zero_exps).cloned().unwrap_or_else(T::O::o0);
+    if p.const_term().to_o() != c0 { return Some(format!("const_term = {:?}, the polynomial's constant term is {:?}", p.const_term().to_o(), c0)) }
+    if p.is_const() != m.keys().all(|k| k == &zero_exps) { return Some(format!("is_const = {} for {}", p.is_const(), m_show(m))) }
+    let mono = m.len() == 1 && m.values().next().map(|c| c.is1()).unwrap_or(false);
+    if p.is_mono() != mono { return Some(format!("is_mono = {} for {}", p.is_mono(), m_show(m))) }
+    match (p.as_mono(), mono) {
+        (Some(x), true) => { if Some(&x.exps()) != m.keys().next() { return Some("as_mono returns a different monomial".into()) } }
+        (None, false) => {}
+        (a, _) => return Some(format!("as_mono is {} for {}", if a.is_some() { "Some" } else { "None" }, m_show(m))),
     }
     None
 }
